@@ -6444,6 +6444,12 @@ size_t ZSTD_compressStream2( ZSTD_CCtx* cctx,
             flushMin = ZSTDMT_compressStream_generic(cctx->mtctx, output, input, endOp);
             cctx->consumedSrcSize += (U64)(input->pos - ipos);
             cctx->producedCSize += (U64)(output->pos - opos);
+            if ( (endOp == ZSTD_e_end && flushMin == 0)   /* frame completed */
+              && (cctx->pledgedSrcSizePlusOne != 0)
+              && (cctx->pledgedSrcSizePlusOne != cctx->consumedSrcSize+1) ) {
+                /* workers only verify the size of their own job : the pledged size of the whole frame is verified here */
+                flushMin = ERROR(srcSize_wrong);
+            }
             if ( ZSTD_isError(flushMin)
               || (endOp == ZSTD_e_end && flushMin == 0) ) { /* compression completed */
                 if (flushMin == 0)
